@@ -6,6 +6,7 @@ from operator import attrgetter, methodcaller
 from itertools import chain, product
 from bisect import bisect_left
 
+from . import state
 from .basis import BSplineBasis
 from .utils import (
     reshape, rotation_matrix, is_singleton, ensure_listlike,
@@ -1121,6 +1122,14 @@ class SplineObject(object):
 
         # error test input
         direction = check_direction(direction, self.pardim)
+
+        # a splitting point which continuity() takes for an existing knot (a knot in [k-tol, k+tol)) is that knot
+        knots = [float(k) for k in knots]
+        old_knots = self.bases[direction].knots
+        for i, k in enumerate(knots):
+            lo = bisect_left(old_knots, k - state.knot_tolerance)
+            if lo < len(old_knots) and old_knots[lo] < k + state.knot_tolerance:
+                knots[i] = old_knots[lo]
 
         p = self.order(direction)
         results = []
